@@ -132,6 +132,10 @@ def gen_scenario(rng, fam):
         tasks.append({'name': name, 'via': via, 'cmds': cmds, 'hard': hard,
                       'soft': soft, 'stale': rng.random() < 0.3,
                       'parent': parent,
+                      # the task's directory is a symbolic link to a place
+                      # that is gone (a purged scratch file system)
+                      'dangling': (rng.random() < 0.05 and parent is None
+                                   and via in ('cli', 'clis')),
                       'targets': rng.choice((None, 1, 2, 3))})
     if fam.get('startup'):
         # the first run of a job: nothing exists yet and the workers start
@@ -215,9 +219,10 @@ def expected(scn, proc_log=()):
             own.append({'status': status, 'started': started,
                         'codes': None if raised else codes, 'raised': raised})
             continue
-        if not name_valid(full_name(tsk)):
+        if not name_valid(full_name(tsk)) or (
+                tsk.get('dangling') and not scn.get('fresh_roots')):
             own.append({'status': 'FAILED', 'started': 0, 'codes': None,
-                        'raised': True})
+                        'raised': True, 'codes_before_failure': []})
             continue
         started, codes, raised = 0, [], False
         status = 'DONE'
@@ -261,6 +266,10 @@ def run_scenario(scn, chooser, max_steps=200000):
         os.makedirs(log_root)
         for tsk in scn['tasks']:
             name = full_name(tsk)
+            if tsk.get('dangling') and name_valid(name):
+                os.symlink(os.path.join(top, 'gone', name),
+                           os.path.join(root, name))
+                continue
             if not tsk.get('stale') or not name_valid(name):
                 continue
             os.makedirs(os.path.join(root, name), exist_ok=True)
@@ -715,7 +724,8 @@ def oracle(scn, res):
                          {'task': name, 'started': got_ks,
                           'want': list(range(want_started))}))
             continue
-        if final[i] == 'SKIPPED' or not name_valid(name):
+        if final[i] == 'SKIPPED' or not name_valid(name) or (
+                tsk.get('dangling') and not scn.get('fresh_roots')):
             continue
         tdir = os.path.join(res.root, name)
         dirs.setdefault(os.path.normpath(tdir), []).append(name)
@@ -912,6 +922,10 @@ def shrink(scn):
         if tsk.get('stale'):
             new = copy.deepcopy(scn)
             new['tasks'][i]['stale'] = False
+            yield new
+        if tsk.get('dangling'):
+            new = copy.deepcopy(scn)
+            new['tasks'][i]['dangling'] = False
             yield new
         if tsk['via'] in CODE_KINDS:
             new = copy.deepcopy(scn)
